@@ -19,11 +19,13 @@ def _group(records):
         g = by.get(k)
         if g is None:
             g = by[k] = {"fam": "resolve", "origin": r["origin"], "wk": r["wk"], "srv": r["srv"],
-                         "lwk": r["lwk"], "spell": r["spell"], "nsrvq": 0, "allowed": []}
+                         "lwk": {"ok_any": [], "addr": r["lwk"]["addr"]}, "spell": r["spell"], "nsrvq": 0, "allowed": []}
             order.append(k)
         g["nsrvq"] = max(g["nsrvq"], r["nsrvq"])
+        if r["lwk"]["ok"] not in g["lwk"]["ok_any"]:
+            g["lwk"]["ok_any"].append(r["lwk"]["ok"])
         v = {"refused": r["refused"], "result": r["result"], "wkreqs": r["wkreqs"]}
-        lat = "%s/%s" % (r["lat"]["srverr"], r["lat"]["baddeleg"])
+        lat = "%s/%s/%s/%s" % (r["lat"]["srverr"], r["lat"]["baddeleg"], r["lat"]["redirect"], r["lat"]["tie"])
         for a in g["allowed"]:
             if a["refused"] == v["refused"] and a["result"] == v["result"] and a["wkreqs"] == v["wkreqs"]:
                 a["lats"].append(lat)
@@ -34,10 +36,9 @@ def _group(records):
     out = []
     for k in order:
         g = by[k]
-        if sum(len(a["lats"]) for a in g["allowed"]) != 6:
-            raise MachineryError("scenario %s was not emitted for all 6 latitudes" % k[:200])
-        # the outcome of the strictest reading first: it is the one quoted in messages
-        g["allowed"].sort(key=lambda a: (0 if "next/refuse" in a["lats"] else 1))
+        # latitudes are only enumerated where the scenario can read them; the strictest reading (go on with the
+        # next step / refuse an invalid delegation / follow / "ab") comes first: it is the one quoted in messages
+        g["allowed"].sort(key=lambda a: (0 if "next/refuse/follow/ab" in a["lats"] else 1))
         out.append(g)
     return out
 
